@@ -65,6 +65,9 @@ claimed = {
  "C10": dict(
    text="Lean 4 proof, for arbitrary program trees (hence any instruction sequence of the CPU model, tied to the data sheets by C01) on arbitrary inner buses (hence every memory model): the page test plus exact lookup intercepts exactly the trap address (C10_address); the trap log after a run is the old log followed by the values of the stores issued to the trap address in program order, one call per store (C10_log, induction over trees); an intercepted store performs no memory write of its own (C10_trap, C10_untouched) and the continuation runs with the script's registers on the script's memory (C10_script_effect); other addresses and all loads are the inner bus (C10_other, C10_load, C10_plain_run, C10_placeholder_idle); ports: stdout after a run is the old text plus each issued port store formatted by its own port with its own counter (C10_port_run, C10_port_store, C10_port_other, C10_format). Tie: generated programs with Lua trap functions mirrored in Lean through both trap implementations, and configured ports with captured stdout. Modelled, not verified: gopher-lua, os.Stdout; RMW 'modified value' rests on C01's store equality.",
    technique="Lean 4 proof by induction over interaction trees on a wrapper-bus model + program-level differential with mirrored Lua trap scripts and captured stdout"),
+ "C12": dict(
+   text="Lean 4 proof on a model of the script API acting on the very Machine the run loop executes: set_* then get_* returns the value for A, X, Y, SP, PC, setters change only their register, getters change nothing (C12_registers, C12_setters_frame, C12_getters_pure); the flag string: set_flags(get_flags()) keeps all seven named flags for all 256 values, every producible string round-trips, different flag sets give different strings (C12_flags_get_set, C12_flags_set_get, C12_flags_injective, decided over all bytes); set_memory/get_memory round-trip arbitrary strings of up to 65535 bytes at arbitrary addresses with wrap-around and touch nothing else (C12_memory_roundtrip, C12_memory_frame, induction, flat RAM), write_byte/read_byte are the program's bus operations on every bus (C12_same_bus, C12_byte_roundtrip); get_cycles after a continued run = counter before + executed path cycles (C12_cycles via C02); load_address/prog_len = header address / payload length (C12_globals). Tie: generated scripts through the real Execute, every value returned to Lua compared. Modelled, not verified: gopher-lua conversions (in-range arguments only), banked windows (covered by C04/C05).",
+   technique="Lean 4 proof over a script-API model on the run loop's machine + differential with generated Lua scripts through the real test executor"),
  "C09": dict(
    text="Lean 4 proof over abstract script behaviours (any iteration count, any per-iteration behaviour of arrange / driver / assert): reported OK implies assembling, loading and script load succeeded, the driver ran to its BRK at least once (once per iteration) and every assert call made returned boolean true (C09_sound); any fault or non-true assert in a reached iteration, or an iteration count below one, implies not OK (C09_fail); verifyall succeeds iff every case passed and then prints the number of cases (C09_all, C09_count). Tie: generated Lua scripts and drivers through the real Execute / CaseExec / IterateTestCases with a fake assembler. Modelled, not verified: gopher-lua's VM and value conversions.",
    technique="Lean 4 proof over a verdict model + differential with generated Lua scripts through the real test executor"),
